@@ -340,6 +340,38 @@ def _run_decorated(griffe, acc):
                 acc.violation("decorated/differs-from-undecorated/" + ("lost" if len(got) < len(want) else "extra"), f"{deco} def f({old}) -> def f({new}): reported {got}, without the decorator {want}", case, None, size=len(deco))
 
 
+# the same pairs under identifiers that LOOK special (leading double underscore, leading / trailing underscore): CPython gives such parameter names no meaning
+# outside a class body; and the kinds read by the visitor are those inspect.signature reports
+UNDERSCORE_NAMES = {"a": "__a", "b": "_b", "c": "c_"}
+
+
+def _run_underscore_names(griffe, acc):
+    import inspect as _inspect
+
+    sigs = S.signatures("abc", 2, (None, "0"))
+    shapes = S.call_shapes("abc", 3)
+    inv = {v: k for k, v in UNDERSCORE_NAMES.items()}
+    mods = [_mod_for(griffe, s_, UNDERSCORE_NAMES) for s_ in sigs]
+    masks = [S.accept_mask(s_, shapes) for s_ in sigs]
+    kind_names = {"po": "positional-only", "pk": "positional or keyword", "va": "variadic positional", "ko": "keyword-only", "vk": "variadic keyword"}
+    for s_, m in zip(sigs, mods):
+        got = [(p.name, p.kind.value) for p in m["f"].parameters]
+        want = [(UNDERSCORE_NAMES[n], kind_names[k]) for n, k, _d in s_]
+        if got != want:
+            acc.violation("underscore-names/kind", f"def f({S.render_params(_rename(s_, UNDERSCORE_NAMES))}): Griffe reads {got}, written (and bound by CPython as) {want}", {"decorator": None, "underscore": S.render_params(_rename(s_, UNDERSCORE_NAMES))}, None, size=len(s_))
+    for i, old in enumerate(sigs):
+        for j, new in enumerate(sigs):
+            probs, kinds = judge(griffe, old, new, masks[i], masks[j], mods[i], mods[j], inv)
+            acc.case({"old": S.render_params(_rename(old, UNDERSCORE_NAMES)), "new": S.render_params(_rename(new, UNDERSCORE_NAMES))}, outcome="underscore:" + ("reported" if kinds else "silent"), nontrivial=old != new)
+            for kind, info in probs:
+                if (kind, info) in (("miss", None),) and any(k.startswith(("miss/",)) for k in ()):
+                    continue
+                key = _key_for(kind, info, old, new)
+                # (the key of the plain alphabet: a root cause already listed stays one entry; anything the plain names do not show is a new key)
+                acc.violation(key, f"{kind} {info}: def f({S.render_params(_rename(old, UNDERSCORE_NAMES))}) -> def f({S.render_params(_rename(new, UNDERSCORE_NAMES))})",
+                              {"old": S.render_params(old), "new": S.render_params(new), "old_sig": old, "new_sig": new, "underscore": True}, None, size=len(old) + len(new))
+
+
 def run_shard(shard, tier):
     griffe, sigs, shapes, masks, mods, mapping = _prepare(tier)
     inv = {v: k for k, v in mapping.items()}
@@ -351,6 +383,8 @@ def run_shard(shard, tier):
         _run_dynamic_defaults(griffe, acc)
     if shard == 2:
         _run_decorated(griffe, acc)
+    if shard == 3:
+        _run_underscore_names(griffe, acc)
     for i in range(shard, len(sigs), NSHARDS):
         old = sigs[i]
         for j, new in enumerate(sigs):
